@@ -790,6 +790,17 @@ NextPin:
 			return fmt.Errorf("Error closing rowsPoints: %v", err)
 		}
 
+		// the hashes of existing child edges are part of the new edge's hash
+		childEdges, err := sdb.edges(tx, "SELECT * FROM edges WHERE up=?", nodeID)
+		if err != nil {
+			rollback()
+			return err
+		}
+
+		for _, c := range childEdges {
+			hashUpdate ^= c.Hash
+		}
+
 		_, err = tx.Exec(`INSERT INTO edges(id, up, down, hash, type) VALUES (?, ?, ?, ?, ?)`,
 			edge.ID, edge.Up, edge.Down, 0, edge.Type)
 
@@ -822,7 +833,7 @@ NextPin:
 		}
 	}
 
-	err = sdb.updateHash(tx, nodeID, hashUpdate)
+	err = sdb.updateEdgeHash(tx, edge, parentID, hashUpdate)
 	if err != nil {
 		rollback()
 		return fmt.Errorf("Error updating upstream hash: %v", err)
@@ -874,6 +885,22 @@ func (sdb *DbSqlite) isUpstream(tx *sql.Tx, upID, id string) (bool, error) {
 	return false, nil
 }
 
+// updateEdgeHash is used when the points of one edge change. The change
+// is applied to this edge, and to all edges upstream of it.
+func (sdb *DbSqlite) updateEdgeHash(tx *sql.Tx, edge data.Edge, parentID string, hashUpdate uint32) error {
+	cache := make(map[string]uint32)
+	cache[edge.ID] = edge.Hash ^ hashUpdate
+
+	if parentID != "none" {
+		err := sdb.updateHashHelper(tx, parentID, hashUpdate, cache)
+		if err != nil {
+			return err
+		}
+	}
+
+	return sdb.writeHashes(tx, cache)
+}
+
 func (sdb *DbSqlite) updateHash(tx *sql.Tx, id string, hashUpdate uint32) error {
 	// key in edgeCache is up-down
 	cache := make(map[string]uint32)
@@ -882,7 +909,12 @@ func (sdb *DbSqlite) updateHash(tx *sql.Tx, id string, hashUpdate uint32) error 
 		return err
 	}
 
-	// write update hash values back to edges
+	return sdb.writeHashes(tx, cache)
+}
+
+// writeHashes writes updated hash values back to edges. The key in cache
+// is the edge ID.
+func (sdb *DbSqlite) writeHashes(tx *sql.Tx, cache map[string]uint32) error {
 	stmt, err := tx.Prepare(`UPDATE edges SET hash = ? WHERE id = ?`)
 
 	if err != nil {
